@@ -25,6 +25,28 @@ func (urlTree *URLTree[T]) Lookup(url string) LookupResult[T] {
 	return res
 }
 
+// LookupDeclaredURL returns the value stored for exactly this declared URL, or nil.
+// The URL is walked the way InsertDeclaredURL walks it: a `{name}` part follows the
+// parametric child and `*` the wildcard child, they are not matched as request values.
+func (urlTree *URLTree[T]) LookupDeclaredURL(url string) *T {
+	currentNode := urlTree.Root
+	for _, urlPart := range splitURL(url) {
+		var next *Node[T]
+		if urlPart.Value == wildcard {
+			next = currentNode.WildcardChild
+		} else if _, isPathParam := TryExtractPathParameter(urlPart.Value); isPathParam {
+			next = currentNode.ParametricChild.Child
+		} else {
+			next = currentNode.ConstantChildren[urlPart.Value]
+		}
+		if next == nil {
+			return nil
+		}
+		currentNode = next
+	}
+	return currentNode.Value
+}
+
 func lookupNode[T any](urlTree *URLTree[T], url string) lookupNodeResult[T] {
 	splitURL := splitURL(url)
 	currentNode := urlTree.Root
